@@ -94,7 +94,7 @@ pub struct MigShape {
     pub ask_attrs: usize,
     pub bid_attrs: usize,
 }
-const MDIMS: [usize; 5] = [4, 8, 8, 3, 3];
+const MDIMS: [usize; 5] = [4, 8, 8, 4, 4];
 
 fn m_approvers(i: usize) -> Option<Vec<&'static str>> {
     [None, Some(vec![]), Some(vec!["approver3", "approver"]), Some(vec!["X"])][i].clone()
@@ -114,7 +114,7 @@ fn m_pair(i: usize, acct: &'static str) -> (Option<&'static str>, Option<&'stati
     }
 }
 fn m_attrs(i: usize) -> Option<Vec<&'static str>> {
-    [None, Some(vec![]), Some(vec!["kyc"])][i].clone()
+    [None, Some(vec![]), Some(vec!["kyc"]), Some(vec!["Kyc.Passport.PB", "kyc"])][i].clone()
 }
 
 impl MigShape {
@@ -794,6 +794,67 @@ fn event_menu() -> Vec<Value> {
         }
     }
     v
+}
+
+/// Books crowded with old-format bids (more than any history of the small books produces): sizes
+/// around 50 / 100 / 128 / 256, a few current-format bids keyed before, between and after them.
+pub fn run_crowded(tier: Tier) -> MigOut {
+    let ident = crate::c13::package_identity();
+    let menu = event_menu();
+    let cfg = Cfg::new(0, 1, ("0.25", "0.25"), "R0");
+    let sc = scen("crowded", cfg, Menu { ask_slots: 0, bid_slots: 0, prices: vec!["2"], sizes: vec![1], match_sizes: vec![], reject_sizes: vec![], ask_bases: vec![], two_approvers: false, modifies: vec![], quotes: vec![], migrates: vec![] }, vec![]);
+    let s0 = crate::engine::initial_store(&sc).expect("instantiate");
+    let sizes: Vec<usize> = if tier == Tier::Thorough {
+        let mut z: Vec<usize> = (1..=70).collect();
+        z.extend([99, 100, 101, 102, 127, 128, 129, 150, 151, 199, 200, 201, 255, 256, 257, 511, 512, 513, 1000, 1001]);
+        z
+    } else {
+        vec![1, 3, 49, 50, 51, 52, 100, 101, 102, 128, 129, 256, 257]
+    };
+    let total = Mutex::new(MigOut::default());
+    let next = AtomicUsize::new(0);
+    std::thread::scope(|scp| {
+        for _ in 0..threads() {
+            scp.spawn(|| {
+                let mut out = MigOut::default();
+                loop {
+                    let i = next.fetch_add(1, Ordering::Relaxed);
+                    if i >= sizes.len() {
+                        break;
+                    }
+                    let n = sizes[i];
+                    let mut native = s0.clone();
+                    let mut twin = s0.clone();
+                    for j in 0..n {
+                        let id = format!("c0a1b2c3-d4e5-4f60-8a9b-{:012x}", 2 * j);
+                        let len = j % 4;
+                        let events: Vec<Value> = (0..len).map(|k| menu[(j * 7 + k * 11 + 3) % menu.len()].clone()).collect();
+                        let sums = fold_log(&events);
+                        let nat = json!({"base": {"denom": "base", "amount": "100"}, "accumulated_base": sums.0.to_string(), "accumulated_quote": sums.1.to_string(), "accumulated_fee": sums.2.to_string(),
+                            "fee": {"denom": "q1", "amount": "50"}, "id": id, "owner": if j % 2 == 0 { "buyer1" } else { "buyer2" }, "price": "2", "quote": {"denom": "q1", "amount": "200"}});
+                        let nb = nat.to_string().into_bytes();
+                        twin.0.insert(bid_key(&id), to_v2(&nb, &events));
+                        native.0.insert(bid_key(&id), nb);
+                    }
+                    // current-format bids keyed before, in the middle of and after the old-format ones
+                    for id in ["00000000-0000-4000-8000-000000000001", "c0a1b2c3-d4e5-4f60-8a9b-000000000033", "ffffffff-ffff-4fff-bfff-fffffffffffe"] {
+                        let nat = json!({"base": {"denom": "base", "amount": "10"}, "accumulated_base": "3", "accumulated_quote": "6", "accumulated_fee": "1", "fee": {"denom": "q1", "amount": "5"},
+                            "id": id, "owner": "buyer2", "price": "2", "quote": {"denom": "q1", "amount": "20"}});
+                        twin.0.insert(bid_key(id), nat.to_string().into_bytes());
+                        native.0.insert(bid_key(id), nat.to_string().into_bytes());
+                    }
+                    out.books += 1;
+                    out.twins += 1;
+                    out.c(&format!("C15/crowded-book/{}", if n > 50 { "more-than-50-old-format-bids" } else { "up-to-50-old-format-bids" }));
+                    for v in ["0.16.2", "0.18.2", "0.19.0", "0.19.1", "1.0.0"] {
+                        judge(&sc.cfg.chain, &twin, &native, v, &MigShape::none(), &ident, &mut out);
+                    }
+                }
+                total.lock().unwrap().merge(out);
+            });
+        }
+    });
+    total.into_inner().unwrap()
 }
 
 pub fn run_all_logs(tier: Tier) -> MigOut {
